@@ -7,7 +7,8 @@
 (*                                                                         *)
 (* decl  = [id, kind "struct"|"enum", name, shape, fields, variants,        *)
 (*          tparams: Seq([name, skip]), lifetimes: Seq(name),               *)
-(*          capture "absent"|"default"|"always"|"never",                    *)
+(*          consts: Seq(name) (const generic parameters: never listed as    *)
+(*          type parameters), capture "absent"|"default"|"always"|"never",   *)
 (*          replace: Seq(<<search, with>>), docs, mods: Seq(segment)]       *)
 (* field = [name: Opt, ty: TExpr, skip, compact, rename: Opt, docs]         *)
 (* variant = [name, shape, fields, cindex: Opt, discr: Opt, skip, docs]     *)
@@ -42,9 +43,10 @@ Toks(t, d) ==
     [] t.c = "result" -> Gen2("Result", t, d) [] t.c = "btreemap" -> Gen2("BTreeMap", t, d)
     [] t.c = "tuple" -> "(" \o TokList(t.a, d, ",") \o (IF Len(t.a) = 1 THEN ",)" ELSE ")")
     [] t.c = "array" -> "[" \o Toks(t.a[1], d) \o ";" \o ToString(t.n) \o "]"
+    [] t.c = "arrayc" -> "[" \o Toks(t.a[1], d) \o ";" \o t.n \o "]"             \* length = a const generic parameter
     [] t.c = "ref" -> "&'static" \o Toks(t.a[1], d)
     [] t.c = "assoc" -> t.n \o "::A"
-    [] t.c = "self" -> LET g == [i \in 1..Len(d.lifetimes) |-> "'static"] \o [i \in 1..Len(d.tparams) |-> d.tparams[i].name]
+    [] t.c = "self" -> LET g == [i \in 1..Len(d.lifetimes) |-> "'static"] \o [i \in 1..Len(d.tparams) |-> d.tparams[i].name] \o d.consts
                        IN d.name \o (IF g = <<>> THEN "" ELSE "<" \o JoinC(g) \o ">")
 
 \* replace_segment: the FIRST matching entry wins, applied to every segment of module path + identifier
